@@ -10,6 +10,7 @@ import (
 	"go/ast"
 	"go/token"
 	"go/types"
+	"os"
 	"sort"
 	"strings"
 
@@ -17,27 +18,27 @@ import (
 )
 
 type Obligation struct {
-	Name   string
-	Kind   string // ensures frame inv-init inv-step decreases pre safety:nil safety:index ... panic subset vacuity
-	Props  []string
-	Fn     string
-	Text   string // clause text or description
-	Pos    string
-	prefix int    // number of body lines that precede it
-	guard  string // reachability condition
-	goal   string
-	enc    *Enc
+	Name      string
+	Kind      string // ensures frame inv-init inv-step decreases pre safety:nil safety:index ... panic subset vacuity
+	Props     []string
+	Fn        string
+	Text      string // clause text or description
+	Pos       string
+	prefix    int    // number of body lines that precede it
+	guard     string // reachability condition
+	goal      string
+	enc       *Enc
 	expectSat bool // vacuity checks: must be satisfiable
-	Extra  map[string]string
+	Extra     map[string]string
 
 	// results
-	Status   string // discharged | failed | unknown
-	Backend  string
-	Millis   int64
-	Model    string
-	Output   string
-	Bounded  bool
-	Retried  bool // needed the second (quiet, longer) solving pass
+	Status  string // discharged | failed | unknown
+	Backend string
+	Millis  int64
+	Model   string
+	Output  string
+	Bounded bool
+	Retried bool // needed the second (quiet, longer) solving pass
 }
 
 // Script: the SMT text under construction for one function under contract. Inlined callees
@@ -59,35 +60,36 @@ type Script struct {
 
 type Enc struct {
 	*Script
-	w      *World
-	fn     *ssa.Function
-	c      *Contract
-	key    string
-	pkg    *types.Package
-	tag    string   // suffix of block-level SMT names ("" top level, "_i<k>" for the k-th inlined call)
-	inlineStack []*ssa.Function
-	entryReach string
-	vals   map[ssa.Value]interface{} // Term | []Term | *Addr
-	reach  map[*ssa.BasicBlock]string
-	out    map[*ssa.BasicBlock]*State
-	edge   map[[2]int]string // (from,to) -> condition term name
-	entry  *State
-	params map[string]Term
-	modAddrs []*Addr // caller's modifies, evaluated at entry
-	cur    *State
-	curBlk *ssa.BasicBlock
-	curReach string
-	ghost  map[string]Term
-	loops  map[*ssa.BasicBlock]*loopInfo
-	failed []string // reasons the function left the subset
-	nameDefs map[string][]*ssa.DebugRef
-	isInit bool
-	initPhase bool // package initialiser or one of the init() functions it calls
-	exits  []exitInfo
-	resultTypes []types.Type
+	w              *World
+	fn             *ssa.Function
+	c              *Contract
+	key            string
+	latchEdge      string // ".p<pred>" while a duplicated loop latch is evaluated for one incoming edge
+	pkg            *types.Package
+	tag            string // suffix of block-level SMT names ("" top level, "_i<k>" for the k-th inlined call)
+	inlineStack    []*ssa.Function
+	entryReach     string
+	vals           map[ssa.Value]interface{} // Term | []Term | *Addr
+	reach          map[*ssa.BasicBlock]string
+	out            map[*ssa.BasicBlock]*State
+	edge           map[[2]int]string // (from,to) -> condition term name
+	entry          *State
+	params         map[string]Term
+	modAddrs       []*Addr // caller's modifies, evaluated at entry
+	cur            *State
+	curBlk         *ssa.BasicBlock
+	curReach       string
+	ghost          map[string]Term
+	loops          map[*ssa.BasicBlock]*loopInfo
+	failed         []string // reasons the function left the subset
+	nameDefs       map[string][]*ssa.DebugRef
+	isInit         bool
+	initPhase      bool // package initialiser or one of the init() functions it calls
+	exits          []exitInfo
+	resultTypes    []types.Type
 	pendingCopyOut []copyOut
-	curCall *ssa.Call
-	lemmaMode bool // proving a `derives` clause: no body, no frame obligations
+	curCall        *ssa.Call
+	lemmaMode      bool // proving a `derives` clause: no body, no frame obligations
 }
 
 type exitInfo struct {
@@ -98,12 +100,12 @@ type exitInfo struct {
 }
 
 type loopInfo struct {
-	head    *ssa.BasicBlock
-	ordinal int
-	body    map[*ssa.BasicBlock]bool
-	spec    *LoopSpec
-	vars    map[string]Term // name -> term at head (after havoc)
-	pre     *State          // state at head after havoc (for decreases)
+	head      *ssa.BasicBlock
+	ordinal   int
+	body      map[*ssa.BasicBlock]bool
+	spec      *LoopSpec
+	vars      map[string]Term // name -> term at head (after havoc)
+	pre       *State          // state at head after havoc (for decreases)
 	decAtHead string
 }
 
@@ -313,7 +315,7 @@ func (e *Enc) setupEntry() {
 	e.cur = e.entry.clone()
 	e.curReach = "true"
 	e.body = append(e.body, fmt.Sprintf("(assert (>= W_0 %d))", 4096)) // room for package-level objects
-	e.body = append(e.body, "(assert (bvult A_0 (_ bv1 128)))") // the counter is relative: only differences matter
+	e.body = append(e.body, "(assert (bvult A_0 (_ bv1 128)))")        // the counter is relative: only differences matter
 	for _, p := range fn.Params {
 		name := "p_" + sanitize(p.Name())
 		t := mkTerm(w, name, p.Type())
@@ -321,6 +323,13 @@ func (e *Enc) setupEntry() {
 		e.vals[p] = t
 		e.params[p.Name()] = t
 		e.assumeAll(w.reg.wf(name, p.Type(), "W_0"))
+	}
+	if e.c != nil {
+		for old, cur := range w.paramAliases(e.c, e.pkgOf(e.c)) {
+			if t, ok := e.params[cur]; ok {
+				e.params[old] = t
+			}
+		}
 	}
 	if sig := fn.Signature; sig.Results() != nil {
 		for i := 0; i < sig.Results().Len(); i++ {
@@ -559,6 +568,34 @@ func (e *Enc) block(b *ssa.BasicBlock) {
 		e.out[b] = e.cur
 		return
 	}
+	// the same for a loop latch (a block with several predecessors whose only successor is the loop
+	// head, e.g. the for.post block all `continue`s jump to): the invariant is re-established per
+	// incoming edge, on that edge's own state, so quantified invariants never range over merged memories
+	if len(ins) > 1 && e.loops[b] == nil && len(b.Succs) == 1 && e.isBackEdge(b, b.Succs[0]) && latchIsSimple(b) {
+		var cs []string
+		for _, in := range ins {
+			cs = append(cs, in.cond)
+		}
+		e.define(rname, "Bool", or(cs...))
+		e.reach[b] = rname
+		for k, in := range ins {
+			e.cur = e.out[in.p].clone()
+			e.curReach = e.define(fmt.Sprintf("r%s_%d_e%d", e.tag, b.Index, k), "Bool", in.cond)
+			e.latchEdge = fmt.Sprintf(".p%d", in.p.Index)
+			for _, instr := range b.Instrs {
+				if phi, ok := instr.(*ssa.Phi); ok {
+					v := e.term(phi.Edges[in.idx])
+					e.vals[phi] = Term{v.S, v.Sort, phi.Type()}
+					continue
+				}
+				e.instr(instr)
+				e.compact()
+			}
+			e.latchEdge = ""
+		}
+		e.out[b] = e.cur
+		return
+	}
 	if b.Index == 0 {
 		er := "true"
 		if e.entryReach != "" {
@@ -782,6 +819,34 @@ func (e *Enc) loopVars(li *loopInfo, phiTerm func(*ssa.Phi) Term) map[string]Ter
 				best = d
 			}
 		}
+		// a variable re-assigned on some path before the loop is a phi (commented with the variable's
+		// name) in a block that dominates the head: that phi, not an earlier reference, is its value here
+		var bestPhi *ssa.Phi
+		for _, b := range e.fn.Blocks {
+			if b == li.head || !b.Dominates(li.head) {
+				continue
+			}
+			if best != nil && (best.Block() == b || !best.Block().Dominates(b)) {
+				continue // the reference is in the same block (after the phi) or later: it is more recent
+			}
+			for _, in := range b.Instrs {
+				phi, ok := in.(*ssa.Phi)
+				if !ok {
+					break
+				}
+				if phi.Comment == name && (bestPhi == nil || bestPhi.Block().Dominates(b)) {
+					bestPhi = phi
+				}
+			}
+		}
+		if bestPhi != nil {
+			if v, ok := e.vals[bestPhi]; ok {
+				if t, ok := v.(Term); ok {
+					vars[name] = t
+					continue
+				}
+			}
+		}
 		if best == nil {
 			continue
 		}
@@ -833,7 +898,64 @@ func (e *Enc) loopVars(li *loopInfo, phiTerm func(*ssa.Phi) Term) map[string]Ter
 			}
 		}
 	}
+	e.rebindRenamed(li, vars)
 	return vars
+}
+
+// rebindRenamed tolerates the renaming of ONE local variable that a loop's invariant / decreases
+// clauses mention: if exactly one identifier of the clauses resolves to nothing and exactly one
+// source-level local visible at the loop head is mentioned by no clause, the identifier is bound to
+// that local. The clauses are then proved (or not) as usual, so a wrong guess can only fail a proof.
+func (e *Enc) rebindRenamed(li *loopInfo, vars map[string]Term) {
+	if li.spec == nil {
+		return
+	}
+	used := map[string]bool{}
+	var unresolved []string
+	visit := func(x ast.Expr) { freeIdents(x, map[string]bool{}, used) }
+	for _, c := range li.spec.Invariants {
+		visit(c.Expr)
+	}
+	if li.spec.Decreases != nil {
+		visit(li.spec.Decreases.Expr)
+	}
+	builtin := map[string]bool{"true": true, "false": true, "nil": true, "len": true, "cap": true, "old": true, "ret": true, "ret0": true, "ret1": true}
+	for name := range used {
+		if _, ok := vars[name]; ok || builtin[name] {
+			continue
+		}
+		if _, ok := e.ghost[name]; ok {
+			continue
+		}
+		if types.Universe.Lookup(name) != nil {
+			continue
+		}
+		if e.c != nil {
+			if pk := e.pkgOf(e.c); pk != nil && pk.Scope().Lookup(name) != nil {
+				continue
+			}
+		}
+		unresolved = append(unresolved, name)
+	}
+	if os.Getenv("GOVC_DEBUG_RENAME") != "" {
+		fmt.Fprintln(os.Stderr, "rename-debug", e.key, "unresolved", unresolved, "used", used)
+	}
+	if len(unresolved) != 1 {
+		return
+	}
+	var cands []string
+	for name := range e.nameDefs {
+		if _, isParam := e.params[name]; isParam || used[name] {
+			continue
+		}
+		if _, ok := vars[name]; ok {
+			cands = append(cands, name)
+		}
+	}
+	if len(cands) == 1 {
+		vars[unresolved[0]] = vars[cands[0]]
+		fmt.Fprintln(os.Stderr, "note: "+e.key+": "+fmt.Sprintf("loop %d: contract variable %q is not in the code any more; bound to the only local no clause mentions, %q (renamed?)", li.ordinal, unresolved[0], cands[0]))
+	}
 }
 
 // evalPure evaluates a side-effect-free value of the loop head block under a phi substitution.
@@ -889,8 +1011,12 @@ func (e *Enc) loopWrites(li *loopInfo) []MemRef {
 			case *ssa.Store:
 				switch a := in.Addr.(type) {
 				case *ssa.FieldAddr:
-					root, path, _ := e.fieldPath(a)
-					addLeaves(a.Type().(*types.Pointer).Elem(), root, path)
+					root, path, bv := e.fieldPath(a)
+					if ia, ok := bv.(*ssa.IndexAddr); ok { // field of a struct-valued element
+						add(w.reg.elemMem(ia.Type().(*types.Pointer).Elem()))
+					} else {
+						addLeaves(a.Type().(*types.Pointer).Elem(), root, path)
+					}
 				case *ssa.IndexAddr:
 					add(w.reg.elemMem(a.Type().(*types.Pointer).Elem()))
 				default:
@@ -1083,8 +1209,13 @@ func (e *Enc) instr(in ssa.Instruction) {
 		e.chargeAlloc(fmt.Sprint(sizeOf(pt.Elem())))
 	case *ssa.FieldAddr:
 		root, path, baseV := e.fieldPath(in)
-		base := e.term(baseV)
 		ft := in.Type().Underlying().(*types.Pointer).Elem()
+		if ia, ok := baseV.(*ssa.IndexAddr); ok { // field of a struct-valued element of a slice / array
+			ea := e.addr(ia)
+			e.vals[in] = &Addr{base: ea.base, isElem: true, idx: ea.idx, elem: ft, elemSt: ea.elem, elemPath: path}
+			return
+		}
+		base := e.term(baseV)
 		if _, inner := in.X.(*ssa.FieldAddr); !inner {
 			e.nilCheck(base.S, "field "+root.Field(path[0]).Name()+" of "+baseV.Name(), in.Pos())
 		}
@@ -1262,7 +1393,7 @@ func (e *Enc) setEdge(from, to *ssa.BasicBlock, cond string) {
 		e.edge[[2]int{from.Index, to.Index}] = name
 		return
 	}
-	e.define(name, "Bool", cond)
+	name = e.define(name, "Bool", cond) // a duplicated latch defines its back edge once per copy
 	if e.isBackEdge(from, to) {
 		e.backEdge(from, to, name)
 		return
@@ -1294,7 +1425,7 @@ func (e *Enc) backEdge(from, to *ssa.BasicBlock, cond string) {
 	// ghost range sets at the latch
 	for _, inv := range li.spec.Invariants {
 		g := e.env(e.entry, e.cur, vars).bool(inv.Expr)
-		e.oblige("inv-step", fmt.Sprintf("loop%d/%s@b%d", li.ordinal, clauseLabel(inv, li.spec.Invariants), from.Index), g, inv.Text, inv.Props, e.headPos(to))
+		e.oblige("inv-step", fmt.Sprintf("loop%d/%s@b%d%s", li.ordinal, clauseLabel(inv, li.spec.Invariants), from.Index, e.latchEdge), g, inv.Text, inv.Props, e.headPos(to))
 	}
 	if li.spec.Decreases != nil {
 		d := e.env(e.entry, e.cur, vars).tr(li.spec.Decreases.Expr, types.Typ[types.Int])
@@ -1304,7 +1435,7 @@ func (e *Enc) backEdge(from, to *ssa.BasicBlock, cond string) {
 		} else {
 			g = and("(bvsle "+w.reg.zero(d.T)+" "+li.decAtHead+")", "(bvslt "+d.S+" "+li.decAtHead+")")
 		}
-		e.oblige("decreases", fmt.Sprintf("loop%d@b%d", li.ordinal, from.Index), g, li.spec.Decreases.Text, li.spec.Decreases.Props, e.headPos(to))
+		e.oblige("decreases", fmt.Sprintf("loop%d@b%d%s", li.ordinal, from.Index, e.latchEdge), g, li.spec.Decreases.Text, li.spec.Decreases.Props, e.headPos(to))
 	}
 	e.curReach = saved
 }
@@ -1723,6 +1854,9 @@ func (e *Enc) exit() {
 		if c.Derived {
 			continue // proved as a lemma from other clauses (deriveLemmas)
 		}
+		if c.AssumedWhy != "" {
+			continue // assumed, not proved: reported in the trusted base
+		}
 		label := c.Label
 		if label == "" {
 			label = fmt.Sprint(i)
@@ -2066,4 +2200,114 @@ func (e *Enc) chargeAllocBV(n string, elemSize int64) {
 
 func (e *Enc) globalStore(g *ssa.Global, v Term, pos token.Pos) {
 	// sentinel classes are fixed where the error is created (ownSentinelClass)
+}
+
+// freeIdents collects the identifiers in value position of a contract expression (not selected
+// field / method names, not called function names, not quantifier-bound variables).
+func freeIdents(n ast.Node, bound map[string]bool, used map[string]bool) {
+	ast.Inspect(n, func(m ast.Node) bool {
+		switch m := m.(type) {
+		case *ast.SelectorExpr:
+			freeIdents(m.X, bound, used)
+			return false
+		case *ast.CallExpr:
+			b2 := bound
+			if id, ok := m.Fun.(*ast.Ident); ok {
+				if (id.Name == "forall" || id.Name == "exists" || id.Name == "forallT" || id.Name == "existsT") && len(m.Args) > 0 {
+					if b, ok := m.Args[0].(*ast.Ident); ok {
+						b2 = map[string]bool{b.Name: true}
+						for k := range bound {
+							b2[k] = true
+						}
+					}
+				}
+			} else {
+				freeIdents(m.Fun, bound, used)
+			}
+			for _, a := range m.Args {
+				freeIdents(a, b2, used)
+			}
+			return false
+		case *ast.Ident:
+			if !bound[m.Name] {
+				used[m.Name] = true
+			}
+		}
+		return true
+	})
+}
+
+// paramAliases tolerates the renaming of ONE parameter (or receiver) of an in-repo function under
+// contract: if exactly one identifier of its requires / ensures / modifies clauses resolves to nothing
+// and exactly one parameter is mentioned by no clause, the identifier is an alias of that parameter.
+func (w *World) paramAliases(ct *Contract, pkg *types.Package) map[string]string {
+	if ct.aliasDone {
+		return ct.alias
+	}
+	ct.aliasDone = true
+	fn := w.fnByKey[ct.Key]
+	if fn == nil || ct.Assumed {
+		return nil
+	}
+	used := map[string]bool{}
+	for _, cl := range [][]*Clause{ct.Requires, ct.Ensures, ct.Modifies} {
+		for _, c := range cl {
+			if c.Expr != nil {
+				freeIdents(c.Expr, map[string]bool{}, used)
+			}
+		}
+	}
+	known := map[string]bool{"recv": true, "ret": true, "true": true, "false": true, "nil": true}
+	var params []string
+	for _, p := range fn.Params {
+		known[p.Name()] = true
+		params = append(params, p.Name())
+	}
+	if res := fn.Signature.Results(); res != nil {
+		for i := 0; i < res.Len(); i++ {
+			known[fmt.Sprintf("ret%d", i)] = true
+			if n := res.At(i).Name(); n != "" {
+				known[n] = true
+			}
+		}
+	}
+	for i := range fn.Params {
+		known[fmt.Sprintf("arg%d", i)] = true
+	}
+	var unresolved []string
+	for name := range used {
+		if known[name] || types.Universe.Lookup(name) != nil {
+			continue
+		}
+		if pkg != nil && pkg.Scope().Lookup(name) != nil {
+			continue
+		}
+		if _, ok := w.cs.GhostFields[name]; ok {
+			continue
+		}
+		unresolved = append(unresolved, name)
+	}
+	var unusedParams []string
+	for _, p := range params {
+		if !used[p] && p != "" && p != "_" {
+			unusedParams = append(unusedParams, p)
+		}
+	}
+	if len(unresolved) == 1 && len(unusedParams) == 1 {
+		ct.alias = map[string]string{unresolved[0]: unusedParams[0]}
+		fmt.Fprintf(os.Stderr, "note: %s: contract parameter %q is not in the signature any more; bound to the only parameter no clause mentions, %q (renamed?)\n", ct.Key, unresolved[0], unusedParams[0])
+	}
+	return ct.alias
+}
+
+// latchIsSimple: only phis, pure arithmetic and the jump (no calls, loads or stores).
+func latchIsSimple(b *ssa.BasicBlock) bool {
+	for _, in := range b.Instrs {
+		switch in.(type) {
+		case *ssa.Phi, *ssa.BinOp, *ssa.Jump, *ssa.DebugRef, *ssa.Convert, *ssa.ChangeType:
+		default:
+			return false
+		}
+	}
+	return true
 }
